@@ -120,6 +120,10 @@ class Model:
         self.stats = None
         self.epoch = 0
         self.active_epochs = []
+        # Before the repair 13ac26d ("a lambda called by a later eval runs under that eval's op budget and
+        # scopes") what a lambda of an earlier eval saw of the scopes of calls in progress was incoherent and was
+        # not judged. Since the repair lambdas are dynamically scoped uniformly (C07) and the model judges it.
+        self.cross_eval_unspecified = False
 
     # ------------------------------------------------------------------ entry point
     def run(self, tree, names=None):
@@ -221,11 +225,11 @@ class Model:
         if op == '/=':
             return self.py(lambda: cur / v)
         if op == '*=':
-            # C04: multiplication computes in decimal arithmetic and never repeats strings or lists; what the
-            # result type is for non-Decimal numeric operands is not pinned down -> not judged
-            if type(cur) is bool or type(v) is bool or not isinstance(cur, Decimal) or not isinstance(v, Decimal):
-                raise Unspec('*= on non-Decimal operands')
-            return self.py(lambda: cur * v)
+            # C04: multiplication - as operator and as compound assignment - computes in decimal arithmetic and
+            # never repeats strings or lists
+            if not isinstance(cur, NUMERIC) or not isinstance(v, NUMERIC):
+                raise MErr('other', 'multiply non-numbers')
+            return self.py(lambda: Decimal(cur) * Decimal(v))
         raise Unspec('short op ' + op)
 
     # ------------------------------------------------------------------ expressions
@@ -403,7 +407,7 @@ class Model:
     def call_lambda(self, f, args):
         # Lambdas are dynamically scoped within one evaluation. What a lambda created by an EARLIER eval call sees
         # of the scopes of calls in progress (and vice versa) is specified by no property: not judged.
-        if any(e != f.epoch for e in self.active_epochs):
+        if self.cross_eval_unspecified and any(e != f.epoch for e in self.active_epochs):
             raise Unspec('nested call between lambdas created by different eval calls')
         self.active_epochs.append(f.epoch)
         try:
